@@ -141,7 +141,9 @@ fn link_inputs(repo: &str) -> Vec<LinkIn> {
         l("unknown-name", "99_1", Invalid, false, true),
         l("missing-path", "/nonexistent/dir/c20-no-such-link.json", Invalid, false, true),
         l("4_1", "4_1", Valid, false, false),
-        l("5_2", "5_2", Valid, false, false),
+        // 5_2 and 6_2 have cells of rank 1 with torsion (Z + Z/2): a formatter must print both parts
+        l("5_2", "5_2", Valid, false, true),
+        l("6_2", "6_2", Valid, false, false),
         l("kinked-unknot-pd", "[[1,2,2,1]]", Valid, false, false),
         // Hopf link with a kink on one component: 3 crossings, 2 components
         l("hopf-kink-pd", "[[6,1,3,2],[2,3,1,4],[4,5,5,6]]", Valid, false, false),
